@@ -1,8 +1,11 @@
 // C19 harness: the real group chain (LevelDB "group" key space + sqlite groupIndex) driven through
-// AddGroup / remove(last) / removeFromCommonAncestor / restart histories.
+// AddGroup / remove(last) / removeFromCommonAncestor / fork switch (groupChainFork.triggerOnChain) /
+// restart / loss-of-sqlite-rows histories.
 // (a) after every operation the property is evaluated directly on the implementation's observables
-//     (predecessor walk, count, height lookups below and above count, lookups by id, sync answers,
-//     sqlite rows) against the list the history should have produced;
+//
+//	(predecessor walk, count, height lookups below and above count, lookups by id, sync answers,
+//	sqlite rows) against the list the history should have produced;
+//
 // (b) every history + all observables are written as a case for the Coq model (coq/C19/Harness.v).
 package main
 
@@ -12,10 +15,9 @@ import (
 	"math"
 	"math/big"
 	"os"
-	"runtime"
 	"runtime/debug"
 	"runtime/pprof"
-		"strings"
+	"strings"
 
 	"com.tuntun.rangers/node/src/common"
 	"com.tuntun.rangers/node/src/core"
@@ -35,7 +37,7 @@ func (h *helper) GenerateGenesisInfo() []*types.GenesisInfo {
 	g.Header = &hd
 	return []*types.GenesisInfo{{Group: g}}
 }
-func (h *helper) VRFProve2Value(*big.Int) *big.Int               { return big.NewInt(0) }
+func (h *helper) VRFProve2Value(*big.Int) *big.Int                { return big.NewInt(0) }
 func (h *helper) ProposalBonus() *big.Int                         { return big.NewInt(0) }
 func (h *helper) PackBonus() *big.Int                             { return big.NewInt(0) }
 func (h *helper) VerifyHash(*types.Block) common.Hash             { return common.Hash{} }
@@ -106,6 +108,12 @@ func (g *G) eq(o *G) bool {
 	return *g == *o
 }
 
+func mkForkGroup(id, pre, parent, height uint64) *types.Group {
+	g := mkGroup(id, pre, parent)
+	g.GroupHeight = height // a fork group arrives from a peer with its height; insertGroup keys it by that
+	return g
+}
+
 func mkGroup(id, pre, parent uint64) *types.Group {
 	return &types.Group{Id: idBytes(id), PubKey: []byte{byte(id)}, Members: [][]byte{{1}, {2}},
 		Header: &types.GroupHeader{PreGroup: idBytes(pre), Parent: idBytes(parent), CreateHeight: 10 * id, Extends: "x"}}
@@ -117,13 +125,19 @@ const (
 	opRemoveLast
 	opRemoveFrom
 	opRestart
+	opFork
+	opDrop
 )
+
+type FG struct{ Id, Pre, Parent uint64 }
 
 type Op struct {
 	K               int
-	Id, Pre, Parent uint64 // opAdd
-	H               uint64 // opRemoveFrom
-	Cold            bool   // opRestart: close and re-open LevelDB (else initGroupChain on the open store)
+	Id, Pre, Parent uint64   // opAdd
+	H               uint64   // opRemoveFrom
+	Cold            bool     // opRestart: close and re-open LevelDB (else initGroupChain on the open store)
+	Fork            []FG     // opFork: fork groups, heights H+1, H+2, ...
+	Ids             []uint64 // opDrop: the sqlite rows of these ids are deleted behind the chain's back
 }
 
 func (o Op) String() string {
@@ -134,6 +148,14 @@ func (o Op) String() string {
 		return "remove-last"
 	case opRemoveFrom:
 		return fmt.Sprintf("remove-from(%d)", o.H)
+	case opFork:
+		p := make([]string, len(o.Fork))
+		for i, g := range o.Fork {
+			p[i] = fmt.Sprintf("(%d,pre=%d,parent=%d)", g.Id, g.Pre, g.Parent)
+		}
+		return fmt.Sprintf("fork-switch(ancestor-height=%d,[%s])", o.H, strings.Join(p, ""))
+	case opDrop:
+		return fmt.Sprintf("lose-sqlite-rows(%v)", o.Ids)
 	}
 	if o.Cold {
 		return "restart(cold)"
@@ -141,7 +163,7 @@ func (o Op) String() string {
 	return "restart(warm)"
 }
 func (o Op) kind() string {
-	return []string{"add", "remove-last", "remove-from-ancestor", "restart"}[o.K]
+	return []string{"add", "remove-last", "remove-from-ancestor", "restart", "fork-switch", "lose-sqlite-rows"}[o.K]
 }
 func (o Op) coq() string {
 	switch o.K {
@@ -151,6 +173,18 @@ func (o Op) coq() string {
 		return "HRemoveLast"
 	case opRemoveFrom:
 		return fmt.Sprintf("HRemoveFrom %d", o.H)
+	case opFork:
+		p := make([]string, len(o.Fork))
+		for i, g := range o.Fork {
+			p[i] = fmt.Sprintf("(%d,%d,%d)", g.Id, g.Pre, g.Parent)
+		}
+		return fmt.Sprintf("HFork %d [%s]", o.H, strings.Join(p, ";"))
+	case opDrop:
+		p := make([]string, len(o.Ids))
+		for i, x := range o.Ids {
+			p[i] = fmt.Sprint(x)
+		}
+		return fmt.Sprintf("HDrop [%s]", strings.Join(p, ";"))
 	}
 	return "HRestart"
 }
@@ -160,10 +194,10 @@ type Obs struct {
 	Ret   uint64
 	Count uint64
 	Last  *G
-	ByH   []*G   // heights 0..U+3
-	ById  []*G   // ids 1..U
+	ByH   []*G     // heights 0..U+3
+	ById  []*G     // ids 1..U
 	Walk  []uint64 // ids met by the iterator from the last group, at most count+5
-	Sync  [][]*G // GetSyncGroupsById(id) for ids 1..U
+	Sync  [][]*G   // GetSyncGroupsById(id) for ids 1..U
 	SqN   uint64
 	SqH   []int64 // groupheight of id in sqlite, -1 = no row
 }
@@ -195,9 +229,12 @@ func (o *Obs) coq() string {
 	return fmt.Sprintf("Ob %d %d %s %s %s [%s] [%s] %d [%s]", o.Ret, o.Count, o.Last.coq(), coqGs(o.ByH), coqGs(o.ById),
 		strings.Join(w, ";"), strings.Join(sy, ";"), o.SqN, strings.Join(sq, ";"))
 }
-func (o *Obs) sameState(p *Obs) bool { // everything but the return code
+func (o *Obs) sameState(p *Obs, sqlite bool) bool { // everything but the return code (and the sqlite part)
 	a, b := *o, *p
 	a.Ret, b.Ret = 0, 0
+	if !sqlite {
+		a.SqN, b.SqN, a.SqH, b.SqH = 0, 0, nil, nil
+	}
 	return a.coq() == b.coq()
 }
 
@@ -270,19 +307,16 @@ func freshStore(U int) {
 // allocate and clear a 128 MiB journal-recovery buffer, which would dominate the run time.
 var jgsN int
 
-// Every LevelDB open allocates a 128 MiB write buffer (fixed in middleware/db). With the collector
-// running, that memory is reused and must be cleared and paged in again on every open (~35 ms); with
-// the collector off it always comes from untouched address space and costs nothing. The live heap of
-// this program is a few MB, so the collector stays off until 512 GiB of address space has been used.
+// Every LevelDB open allocates a 128 MiB write buffer (fixed in middleware/db). Once the collector has
+// freed such a buffer, the next one reuses that memory, which must be cleared and paged in again
+// (~35 ms per open); while the collector has never run, every buffer comes from untouched address space
+// and costs nothing. So the collector stays off for the first 2000 (re)starts of the group chain (the
+// whole quick tier; ordinary garbage is ~1 MB per history, i.e. about 1 GB resident by then) and is
+// switched on for good after that, which keeps the resident size of the thorough tier bounded.
 var gcOff bool
 
 func gcValve() {
-	if !gcOff || jgsN%64 != 0 {
-		return
-	}
-	var ms runtime.MemStats
-	runtime.ReadMemStats(&ms)
-	if ms.Sys > 1<<39 {
+	if gcOff && jgsN >= 2000 {
 		debug.SetGCPercent(100)
 		gcOff = false
 	}
@@ -327,13 +361,51 @@ func apply(o Op) (ret uint64) {
 			return 0
 		}
 		return 1
+	case opFork:
+		gs := make([]*types.Group, len(o.Fork))
+		for i, g := range o.Fork {
+			gs[i] = mkForkGroup(g.Id, g.Pre, g.Parent, o.H+1+uint64(i))
+		}
+		found, ok := core.VerifGCForkSwitch(o.H, gs)
+		switch {
+		case !found:
+			return 1
+		case ok:
+			return 0
+		}
+		return 2
+	case opDrop:
+		for _, id := range o.Ids {
+			if err := mysql.DeleteGroup(idBytes(id)); err != nil {
+				panic(err)
+			}
+		}
+		return 0
 	}
 	reinit(o.Cold)
 	return 0
 }
 
 // ---- reference list: what the history should have produced (genesis first) ----
-type shadow struct{ l []G }
+// unsettled: a sqlite row of a listed group was lost and no restart has happened since
+type shadow struct {
+	l         []G
+	unsettled bool
+}
+
+func (s *shadow) add(id, pre, parent uint64) uint64 {
+	if s.has(id) {
+		return 1
+	}
+	if !s.has(parent) {
+		return 2
+	}
+	if s.l[len(s.l)-1].Id != pre {
+		return 3
+	}
+	s.l = append(s.l, G{id, pre, parent, uint64(len(s.l))})
+	return 0
+}
 
 func (s *shadow) has(id uint64) bool {
 	for _, g := range s.l {
@@ -346,16 +418,27 @@ func (s *shadow) has(id uint64) bool {
 func (s *shadow) step(o Op) (ret uint64) {
 	switch o.K {
 	case opAdd:
-		if s.has(o.Id) {
+		return s.add(o.Id, o.Pre, o.Parent)
+	case opFork:
+		if o.H >= uint64(len(s.l)) {
 			return 1
 		}
-		if !s.has(o.Parent) {
-			return 2
+		s.l = s.l[:o.H+1]
+		for _, g := range o.Fork {
+			if s.add(g.Id, g.Pre, g.Parent) != 0 {
+				return 2
+			}
 		}
-		if s.l[len(s.l)-1].Id != o.Pre {
-			return 3
+		return 0
+	case opDrop:
+		for _, id := range o.Ids {
+			if s.has(id) {
+				s.unsettled = true
+			}
 		}
-		s.l = append(s.l, G{o.Id, o.Pre, o.Parent, uint64(len(s.l))})
+		return 0
+	case opRestart:
+		s.unsettled = false
 		return 0
 	case opRemoveLast:
 		if len(s.l) <= 1 {
@@ -379,6 +462,7 @@ type seqResult struct {
 	removed  bool // a group was removed
 	readd    bool // ... and a group was added afterwards
 	rsAfter  bool // ... and a restart happened afterwards
+	healed   bool // a restart re-created lost sqlite rows
 	violated bool
 }
 
@@ -410,8 +494,12 @@ func runSeq(res *hx.Result, U int, ops []Op) (sr seqResult) {
 			sr.steps = append(sr.steps, fmt.Sprintf("(%s, %s)", o.coq(), (&Obs{Ret: 98, Last: &G{}}).coq()))
 			return // the next history starts with freshStore, which wipes the keys and re-runs initGroupChain
 		}
+		wasUnsettledBefore := sh.unsettled
 		want := sh.step(o)
 		ob := observe(U, ret)
+		if o.K == opRestart && wasUnsettledBefore {
+			sr.healed = true
+		}
 		sr.steps = append(sr.steps, fmt.Sprintf("(%s, %s)", o.coq(), ob.coq()))
 		sr.rets = append(sr.rets, ret)
 		if (o.K == opRemoveLast || o.K == opRemoveFrom) && ob.Count < prev.Count {
@@ -420,6 +508,12 @@ func runSeq(res *hx.Result, U int, ops []Op) (sr seqResult) {
 			sr.readd = true
 		} else if sr.removed && o.K == opRestart {
 			sr.rsAfter = true
+		}
+		if o.K == opFork && ret != 1 && o.H+1 < prev.Count {
+			sr.removed = true
+			if len(ob.Walk) > int(o.H)+1 {
+				sr.readd = true
+			}
 		}
 		// ---- the property, on the implementation ----
 		if ret != want {
@@ -467,14 +561,20 @@ func runSeq(res *hx.Result, U int, ops []Op) (sr seqResult) {
 			if !okS {
 				viol(i, "sync-groups", fmt.Sprintf("GetSyncGroupsById(%d)=%s, the groups after it are %v", e.Id, coqGs(got), ids(wantSync)))
 			}
-			if ob.SqH[e.Id-1] != int64(j) {
+			// sqlite: a row is never wrong; it is never missing unless rows were lost and no restart followed
+			if ob.SqH[e.Id-1] != int64(j) && !(sh.unsettled && ob.SqH[e.Id-1] == -1) {
 				viol(i, "sqlite-index", fmt.Sprintf("sqlite groupheight of %d is %d, list position %d", e.Id, ob.SqH[e.Id-1], j))
 			}
 		}
-		if ob.SqN != n {
+		for id := 1; id <= U; id++ {
+			if !sh.has(uint64(id)) && ob.SqH[id-1] != -1 {
+				viol(i, "sqlite-index", fmt.Sprintf("sqlite has a row (groupheight %d) for %d, which is not on the list", ob.SqH[id-1], id))
+			}
+		}
+		if ob.SqN > n || (ob.SqN != n && !sh.unsettled) {
 			viol(i, "sqlite-index", fmt.Sprintf("sqlite has %d rows, the list has %d groups", ob.SqN, n))
 		}
-		if o.K == opRestart && !ob.sameState(prev) {
+		if o.K == opRestart && !ob.sameState(prev, !wasUnsettledBefore) {
 			viol(i, "restart-changes-observables", "before: "+prev.coq()+" after: "+ob.coq())
 		}
 		prev = ob
@@ -521,11 +621,71 @@ func genSeq(r *hx.Rng, U int) []Op {
 			if r.Intn(12) == 0 {
 				o.Parent = uint64(r.Intn(U + 1)) // possibly not on the chain
 			}
-		case x < 72:
+		case x < 66:
 			o.K = opRemoveLast
-		case x < 83:
+		case x < 74:
 			o.K = opRemoveFrom
 			o.H = uint64(r.Intn(len(sh.l) + 1))
+		case x < 83:
+			// fork switch: ancestor somewhere on the chain (rarely above it), 0..3 fork groups that mostly
+			// link up correctly; ids mostly fresh, sometimes one that stays on the chain below the ancestor
+			o.K = opFork
+			o.H = uint64(r.Intn(len(sh.l) + 1))
+			if o.H == uint64(len(sh.l)) && r.Intn(3) != 0 {
+				o.H = uint64(r.Intn(len(sh.l)))
+			}
+			keep := sh.l
+			if o.H < uint64(len(sh.l)) {
+				keep = sh.l[:o.H+1]
+			}
+			used := map[uint64]bool{}
+			for _, g := range keep {
+				used[g.Id] = true
+			}
+			cand := []uint64{keep[0].Id}
+			for _, g := range keep {
+				cand = append(cand, g.Id)
+			}
+			pre := keep[len(keep)-1].Id
+			for k := r.Intn(4); k > 0; k-- {
+				free := []uint64{}
+				for id := uint64(2); id <= uint64(U); id++ {
+					if !used[id] {
+						free = append(free, id)
+					}
+				}
+				var g FG
+				if len(free) == 0 || r.Intn(14) == 0 {
+					g.Id = keep[r.Intn(len(keep))].Id
+				} else {
+					g.Id = free[r.Intn(len(free))]
+				}
+				g.Pre = pre
+				if r.Intn(14) == 0 {
+					g.Pre = uint64(r.Intn(U + 1))
+				}
+				g.Parent = cand[r.Intn(len(cand))]
+				if r.Intn(14) == 0 {
+					g.Parent = uint64(r.Intn(U + 1)) // possibly a group the switch has just removed
+				}
+				o.Fork = append(o.Fork, g)
+				used[g.Id] = true
+				cand = append(cand, g.Id)
+				pre = g.Id
+			}
+		case x < 90:
+			o.K = opDrop
+			if r.Intn(3) == 0 { // the whole index
+				for id := uint64(1); id <= uint64(U); id++ {
+					o.Ids = append(o.Ids, id)
+				}
+			} else {
+				for id := uint64(1); id <= uint64(U); id++ {
+					if r.Intn(3) == 0 {
+						o.Ids = append(o.Ids, id)
+					}
+				}
+			}
 		default:
 			o.K = opRestart
 			o.Cold = r.Intn(2) == 0
@@ -544,10 +704,11 @@ func main() {
 	}
 	a := hx.ParseArgs()
 	rng := hx.NewRng(a.Seed)
-	res := hx.NewResult("one case = one history of AddGroup / remove(last) / removeFromCommonAncestor / restart on a fresh store (genesis id 1); " +
-		"the property is evaluated after every operation. Generated: all histories up to length 3 (quick) / 5 (thorough) over a 6-letter alphabet, " +
-		"then seeded random histories of 6..15 operations over 7 ids with ~10% refused additions. " +
-		"non-trivial = a history in which a group was actually removed and afterwards a group was added or the node restarted")
+	res := hx.NewResult("one case = one history of AddGroup / remove(last) / removeFromCommonAncestor / fork switch (triggerOnChain) / restart / loss of sqlite rows " +
+		"on a fresh store (genesis id 1); the property is evaluated after every operation. Generated: all histories up to length 3 (quick) / 4 (thorough) over an " +
+		"8-letter alphabet (thorough: also all of length 5 over the 6 letters without fork switch and row loss), then seeded random histories of 6..15 operations " +
+		"over 7 ids with ~10% refused additions. non-trivial = a history in which a group was actually removed and afterwards a group was added or the node " +
+		"restarted, or in which a restart had to re-create lost sqlite rows")
 	cs := hx.NewCases(a.Out, "From V.C19 Require Import Model Harness.\nOpen Scope N_scope.", "N * list (hop * obs)", "check", 150)
 
 	if os.Getenv("C19_GC") != "on" {
@@ -580,7 +741,10 @@ func main() {
 		case sr.removed:
 			class = "removal-only"
 		}
-		res.Count(class, strings.Join(names, ";"), sr.removed && (sr.readd || sr.rsAfter))
+		if sr.healed {
+			class += "+index-rebuilt"
+		}
+		res.Count(class, strings.Join(names, ";"), (sr.removed && (sr.readd || sr.rsAfter)) || sr.healed)
 		for _, c := range sr.rets {
 			res.Histogram[fmt.Sprintf("op-result-%d", c)]++
 		}
@@ -592,20 +756,22 @@ func main() {
 
 	// exhaustive small scope
 	alpha := []Op{{K: opAdd, Id: 2, Pre: 0xff, Parent: 1}, {K: opAdd, Id: 3, Pre: 0xff, Parent: 1}, {K: opAdd, Id: 2, Pre: 1, Parent: 3},
-		{K: opRemoveLast}, {K: opRemoveFrom, H: 0}, {K: opRestart, Cold: false}}
+		{K: opRemoveLast}, {K: opRemoveFrom, H: 0}, {K: opRestart, Cold: false},
+		{K: opFork, H: 0, Fork: []FG{{3, 1, 1}, {2, 3, 3}}}, {K: opDrop, Ids: []uint64{1, 2}}}
 	depth := 3
 	if a.Tier == "thorough" {
-		depth = 5
+		depth = 4
 	}
-	var rec func(pre []Op)
-	rec = func(pre []Op) {
-		if len(pre) > 0 {
+	// every history over alpha[:letters] of length <= depth; only those of length >= minLen are run
+	var rec func(pre []Op, letters, depth, minLen int)
+	rec = func(pre []Op, letters, depth, minLen int) {
+		if len(pre) >= minLen && len(pre) > 0 {
 			runCase(3, pre)
 		}
 		if len(pre) == depth {
 			return
 		}
-		for _, o := range alpha {
+		for _, o := range alpha[:letters] {
 			// Pre 0xff = "the current last group" (tracked with a reference list)
 			sh := &shadow{l: []G{{1, 0, 0, 0}}}
 			seq := make([]Op, 0, len(pre)+1)
@@ -616,13 +782,18 @@ func main() {
 			if o.K == opAdd && o.Pre == 0xff {
 				o.Pre = sh.l[len(sh.l)-1].Id
 			}
-			rec(append(seq, o))
+			rec(append(seq, o), letters, depth, minLen)
 		}
 	}
-	rec(nil)
+	rec(nil, len(alpha), depth, 1)
 	res.Exhaustive = true
-	res.Note(fmt.Sprintf("exhaustive: every history of length <= %d over {add 2 after last, add 3 after last, add 2 with PreGroup=genesis and parent 3, remove-last, remove-from-ancestor(0), restart}", depth))
+	res.Note(fmt.Sprintf("exhaustive: every history of length <= %d over {add 2 after last, add 3 after last, add 2 with PreGroup=genesis and parent 3, remove-last, remove-from-ancestor(0), restart, fork-switch(ancestor genesis, [3 after genesis, 2 after 3 with parent 3]), lose the sqlite rows of 1 and 2}", depth))
+	if a.Tier == "thorough" {
+		rec(nil, 6, 5, 5)
+		res.Note("exhaustive: every history of length 5 over the first six of those letters")
+	}
 	res.Note("restart(cold) = close the shared LevelDB and the joined-groups DB, then initGroupChain() on the same files; restart(warm) = initGroupChain() on the still-open store (exhaustive histories use warm, random ones cold with probability 1/2); crashes between the individual Puts inside save/remove are outside the property as stated and are not generated")
+	res.Note("fork-switch = newGroupChainFork(chain group at the height), the fork groups stored with insertGroup (verifyGroup, which needs the block chain, is not called), the real triggerOnChain, destroy; lose-sqlite-rows = mysql.DeleteGroup of the ids behind the chain's back (the situation refreshCache repairs at the next start)")
 
 	for i := 0; i < a.N; i++ {
 		runCase(7, genSeq(rng, 7))
